@@ -6,6 +6,7 @@ import (
 	"fmt"
 	"io"
 	"net/http"
+	"os"
 	"sort"
 	"strconv"
 	"strings"
@@ -111,6 +112,7 @@ type Net struct {
 	DropBefore, DropAfter int
 
 	Fired map[string]int
+	Debug bool
 	busy  sync.Mutex
 }
 
@@ -186,6 +188,9 @@ func (rt *simRT) RoundTrip(req *http.Request) (*http.Response, error) {
 	}
 	rec.Status = resp.Status
 	rec.Note = resp.Note
+	if n.Debug {
+		fmt.Fprintf(os.Stderr, "NET t=%v %s %s %s -> %d %s\n    req=%s\n    resp=%s\n", rec.At, rec.G, rec.Method, rec.URL, resp.Status, resp.Note, clipB(rec.Body), clipB(resp.Body))
+	}
 	rec.Delivered = resp.Err == nil
 	n.busy.Unlock()
 	if n.LatencyMaxMs > 0 {
@@ -297,6 +302,13 @@ func FiredSummary(m map[string]int) string {
 		fmt.Fprintf(&sb, "%s=%d ", k, m[k])
 	}
 	return strings.TrimSpace(sb.String())
+}
+
+func clipB(b []byte) string {
+	if len(b) > 700 {
+		return string(b[:700]) + "…"
+	}
+	return string(b)
 }
 
 var _ = bytes.NewReader
